@@ -445,8 +445,13 @@ func c08(c *Ctx) {
 			for x := 0; x < rng.Intn(4); x++ {
 				items = append(items, randAdmissible())
 			}
-			if rng.Intn(25) == 0 {
-				items = append(items, item{0x01, randContent(3)})
+			if rng.Intn(12) == 0 {
+				// one item of a standard id with an arbitrary (mostly wrong) length at ANY position of ANY report;
+				// the reports after it stay in the body: the whole 0x0704 must still be rejected
+				bad := item{stdIDs[rng.Intn(len(stdIDs))], randContent(rng.Intn(41))}
+				at := rng.Intn(len(items) + 1)
+				items = append(items[:at:at], append([]item{bad}, items[at:]...)...)
+				c.Count("0704:spoiled-item")
 			}
 			rb, w, ok := stdReport(randBlock(), items)
 			class = class || has0x11Area(items)
@@ -454,7 +459,6 @@ func c08(c *Ctx) {
 			body = append(body, rb...)
 			if !ok {
 				good = false
-				break // the parse stops at the first bad item
 			}
 			parts = append(parts, fmt.Sprintf("len=%d %s", len(rb), w))
 		}
